@@ -111,6 +111,7 @@ inductive Cond
   | isCompare
   | ctrPos              -- `retries > 0`
   | not (c : Cond)
+  | or (a b : Cond)
   deriving DecidableEq, Repr, Inhabited
 
 inductive RetV | none | nil | err | keep
@@ -198,6 +199,7 @@ def evalCond (c : Cond) (env : Env) (s : St) : Bool :=
   | .isCompare => env.compare
   | .ctrPos => s.ctr > 0
   | .not c => !evalCond c env s
+  | .or a b => evalCond a env s || evalCond b env s
 
 def linesSent (tr : List Ev) : Nat :=
   tr.foldl (fun n e => match e with | .sent _ ls => n + ls.length | _ => n) 0
